@@ -271,6 +271,8 @@ def run(repo, rep):
     _memo_rule(repo, rep, 'C20', 'C20.Z1')
     from ..pitfalls import log_rule as _log_rule
     _log_rule(repo, rep, 'C20', 'C20.Z2')
+    from ..api_pitfalls import truth_rule as _truth_rule
+    _truth_rule(repo, rep, 'C20', 'C20.Z4')
     rep.rule('C20.H8', 'data sets and command sets are encoded into a buffer that is created in the call, or held per thread and emptied '
              'before the first write: the bytes of a message never contain what another thread or an earlier, failed encode wrote '
              '(same analysis as C08.M7)', 1)
